@@ -149,8 +149,14 @@ def container(F, R):
     for s in recs:
         v = sym_nstr(sym(upd, s.node[2][1])) if s.node[2][0] == 'use' else sym_nstr(('?', s.node[2][0]))
         detail = 'previous_state.current_change_counter = %s' % v[:120]
-        ok = 'Atomic::load(self.change_counter' in v and all(upd.dominates(f_, s) for f_ in sites_of(first))
-    R.ob('FLOW', 'FLOW::%s::observed-change-counter-recorded' % fnkey(upd), ok, detail + ' ; required the value loaded first (so the next refresh reports "nothing changed" once changes stop)', recs[0].where if recs else upd.file, upd)
+        loads_cc = [a for a in atomics(upd, CHG, 'load')]
+        pr_ = upd.prov_operand(s.node[2][1]) if s.node[2][0] == 'use' else None
+        same_load = pr_ is not None and pr_.root[0] == 'call' and len(loads_cc) == 1 and pr_.root[1].key() == loads_cc[0].site.key()
+        scan = [a.site for a in atomics(upd, None, 'load') if 'element_generation_counter' in a.recv]
+        before_scan = bool(scan) and all(upd.dominates(s, x) for x in scan)
+        detail += ' ; %d change-counter load(s), recorded value %s that load, recorded %s the element scan' % (len(loads_cc), 'is' if same_load else 'is NOT', 'before' if before_scan else 'NOT before')
+        ok = 'Atomic::load(self.change_counter' in v and all(upd.dominates(f_, s) for f_ in sites_of(first)) and same_load and before_scan
+    R.ob('FLOW', 'FLOW::%s::observed-change-counter-recorded' % fnkey(upd), ok, detail + ' ; required the value loaded first, recorded before the scan (a change that completes during the scan on an already visited slot must make the NEXT refresh scan again)', recs[0].where if recs else upd.file, upd)
     falses = [s for s in upd.sites if s.i != 'T' and s.node[0] == 'a' and s.node[1] == [0] and s.node[2][0] == 'use' and s.node[2][1][0] == 'k' and s.node[2][1][3] == 0]
     okf = False
     conds = []
@@ -202,6 +208,10 @@ def dynamic_configs(F, R):
 
 
 def check(F, R, tier):
+    # the registry's index set (robust_unique_index_set.rs is an anchor of this property): a slot is freed only by the owner-checked CAS
+    # (C09's rule): a blind reset hands the slot of a live port out a second time = an entry nobody added appears, a registered one vanishes
+    from . import C09 as _C09
+    _C09.robust(F, R)
     lib.cas_loops_fresh(R, F, r'^iceoryx2_bb_lock_free::mpmc::container::Container', 2, 'a decision computed once before the loop is stale after the first failed CAS')
     container(F, R)
     dynamic_configs(F, R)
